@@ -161,7 +161,8 @@ def run(model, col, tier):
                         continue
                     nit += 1
                     key = f"{rel}::{q} iterates {unparse(it)[:50]}"
-                    exc = SET_ITERATION_EXCEPTIONS.get((rel, q, unparse(it)))
+                    # (an exception names the class and the set that is walked; which method of the class holds the loop is free)
+                    exc = next((v_ for (r_, q_, it_), v_ in SET_ITERATION_EXCEPTIONS.items() if r_ == rel and it_ == unparse(it) and q.split(".")[0] == q_.split(".")[0]), None)
                     if exc:
                         col.ok("R18.1", key + " (exception)", "triaged: " + exc)
                         continue
